@@ -71,6 +71,10 @@ def main():
                 mainfn = "" if fname == "main" else "fn main() -> i32\n{\n\treturn: helper()\n}\n"
                 expected_status[len(jobs)] = 3
                 jobs.append(("namesake", "run", [("m.pn", (o + fn if first else fn + o) + mainfn)]))
+    # casts between usize and the other integers in constants and aggregates, on the host and on wasm32 (usize is 32 bits)
+    for src in agggen.usize_cast_programs():
+        jobs.append(("usize-casts", "verify", [("m.pn", src)]))
+        jobs.append(("usize-casts-wasm", "wasm", [("m.pn", src)]))
     # ill-typed programs: rejected on the unchanged tree; whatever a changed typer lets through must still be valid IR
     for src in agggen.illtyped_aggregates():
         jobs.append(("ill-typed-aggregate", "verify", [("m.pn", src)]))
